@@ -42,7 +42,9 @@ Inductive ckind :=
 | CRaise        (* __init__ raises (TypeError / ValueError / KeyError variants)                               *)
 | CFalsy        (* like CKw, but __len__ returns 0                                                            *)
 | CWithCallee   (* like CKw, and the instance has an attribute "callee"                                       *)
-| CReadOnly.    (* like CKw, and "callee_authid" is a property without setter                                  *)
+| CReadOnly     (* like CKw, and "callee_authid" is a property without setter                                  *)
+| CAppSub.      (* class C(ApplicationError): pass  -> __init__(self, error, /, *args, **kwargs): the FIRST positional
+                   argument becomes .error, the rest .args; no positional argument -> TypeError                  *)
 
 Definition run_construct (kinds : list (cls * ckind)) (c : cls) (s : shape) (a : list N) (k : kw N)
   : ctor_result N N :=
@@ -53,6 +55,11 @@ Definition run_construct (kinds : list (cls * ckind)) (c : cls) (s : shape) (a :
   | Some CNoArg => match a, k with [], [] => CtorOk (mkCexn c None [] None true [] []) | _, _ => CtorRaise end
   | Some CKwOnly => if has_self then CtorRaise
                     else match a with [] => CtorOk (mkCexn c None [] (Some k) true [] []) | _ => CtorRaise end
+  | Some CAppSub => match a with
+                    | [] => CtorRaise
+                    | _ :: rest => CtorOk (mkCexn c None rest (Some (fold_left (fun d n => adel String.eqb n d) RESERVED k)) true
+                                                  (map (fun n => (n, FromKw (aget String.eqb n k))) RESERVED) [])
+                    end
   | Some CRaise => CtorRaise
   | Some CFalsy => if has_self then CtorRaise else CtorOk (mkCexn c None a (Some k) false [] [])
   | Some CWithCallee => if has_self then CtorRaise
@@ -94,6 +101,7 @@ Record err_case := mkCase {
   k_traceback_app : bool;
   k_tbv : option N;                             (* the (non-empty) formatted traceback *)
   k_router_callee : option N;                   (* "callee" detail added by the router *)
+  k_interrupts : N;                             (* INTERRUPTs received before the endpoint fails *)
   k_callee_hook : hook;                         (* the callee application's onUserError override: returns / raises *)
   k_caller_hook : hook;
   (* expected *)
@@ -116,8 +124,9 @@ Definition err_case_ok (c : err_case) : bool :=
   let meta := fun n => if String.eqb n "callee" then k_router_callee c else None in
   let call_req := 1%N in
   let p : pending := [(48%N, [mkRequest 1 false; mkRequest 2 false])] in
-  match invocation_error (MV:=N) (fun _ => 0%N) (k_callee_hook c) callee_reg (k_traceback_app c) (k_tbv c) INV_REQ (k_exn c) SendOk with
-  | reply :: _ =>
+  match snd (interrupted_failure (MV:=N) (fun _ => 0%N) [INV_REQ] (N.to_nat (k_interrupts c)) (k_callee_hook c) callee_reg
+                                 (k_traceback_app c) (k_tbv c) INV_REQ (k_exn c) SendOk) with
+  | Ok (reply :: _) =>
       let seen := over_the_wire 48 call_req meta reply in
       let '(p', d) := end_to_end (fun _ => 0%N) (k_callee_hook c) construct (k_caller_hook c) callee_reg caller_reg (k_traceback_app c) (k_tbv c) (k_exn c)
                                  INV_REQ call_req meta p in
@@ -128,5 +137,5 @@ Definition err_case_ok (c : err_case) : bool :=
       && Bool.eqb (snd (exception_from_message construct (k_caller_hook c) caller_reg seen)) (x_reported c)
       && list_eqb N.eqb (match aget N.eqb 48%N p' with Some t => map rq_id t | None => [] end) (x_pending_after c)
       && delivery_ok call_req d (x_delivery c)
-  | [] => false
+  | _ => false
   end.
